@@ -26,6 +26,11 @@ CHECKS = {
          "model-based property testing over operation histories (proptest-driven byte generator with state-dependent amounts, reference ledger, shrinking to replay file)",
          "DESIGN.md 4/C09",
          "Amounts capped so that no total reaches 2^128 (statement's precondition); recipients are valid bech32 addresses."),
+ "C20": ("builder", "exploration",
+         "Generated AppBuilder step sequences (0-14 steps, repetition) driven through the type-state builder by a polymorphically recursive generic function, observed slot by slot and compared with a last-write-wins reference plus a metamorphic check (canonical and reversed order of the same final assignment give the identical observation record); generated ContractWrapper step sequences observed via checksum() and all six entry points. All ordered builder pairs and wrapper pairs/triples are enumerated exhaustively in every run.",
+         "property-based testing with exhaustive small-scope enumeration of step pairs (proptest-driven byte generator, reference assignment map, metamorphic reorder)",
+         "DESIGN.md 4/C20",
+         "Marker components are written in the harness; custom slot restricted to Empty message types; wrapper steps restricted to the default generic parameters."),
 }
 
 NOT_YET = "check not built yet in this revision of /verif (work in progress; planned, see DESIGN.md section 4)"
